@@ -82,9 +82,14 @@ def check(ctx) -> None:
     ctx.rule("C09.stackfx", "TABLE-AGREE: stack_effects == dis.stack_effect for the running interpreter (documented deviations aside)", floor=150)
     ctx.rule("C09.kill", "ABSINT: gen/kill laws of check_explicit_data_dependency over representative contexts", floor=8)
     ctx.rule("C09.lines", "checked lines are the lines of slice instructions; the slice is built from the traversal state only", floor=4)
+    ctx.rule("C09.node-key", "a basic-block node (equal by index only) keys a container only among the blocks of one code object", floor=0)
+    ctx.rule("C09.operands", "ABSINT/stack: track_attribute_access receives the object the instruction reads or modifies", floor=30)
+    for n, ok, desc in I.node_key_uses(repo, ["pynguin.slicer"]):
+        ctx.check("C09.node-key", n, ok, f"{desc}: what was computed for a block of one code object is reused for the block with the same index of another (the flow builder takes a wrong turn and loses the dependencies of that frame)", what=desc, stmt=f"[node-key] {desc[:80]}")
     cur = I.running_version()
     for v in I.VERSIONS:
         _groups(ctx, repo, v, cur)
+        _operands(ctx, repo, v)
     _predicates(ctx, repo)
     _stackfx(ctx, repo, cur)
     _kill(ctx, repo, cur)
@@ -139,6 +144,36 @@ def _groups(ctx, repo, v, cur) -> None:
     ctx.check("C09.groups", dnode, not bad and want <= stores, f"[{v}] STORE_NAMES = {sorted(stores)}: {bad} are no stores / {sorted(want - stores)} are missing - the stack simulation suppresses the uses of the operands of a store only, so the operands of {bad or sorted(want - stores)} are searched wrongly", what=f"[{v}] STORE_NAMES = traced attribute / element / slice stores", stmt=f"[{v} STORE_NAMES]")
     for n in ("MODIFY_FAST_NAMES", "MODIFY_NAME_NAMES", "MODIFY_GLOBAL_NAMES", "MODIFY_DEREF_NAMES"):
         ctx.check("C09.groups", dnode, set(g[n]) <= dfn, f"[{v}] {n} {sorted(set(g[n]) - dfn)} are not memory definitions", what=f"[{v}] {n} ⊆ MEMORY_DEF_NAMES", stmt=f"[{v} {n}]")
+
+
+# the object an attribute / element / slice instruction reads from or writes to, as stack position before the instruction (x1 = top)
+RECEIVER = {"LOAD_ATTR": "x1", "LOAD_METHOD": "x1", "DELETE_ATTR": "x1", "IMPORT_FROM": "x1", "STORE_ATTR": "x1", "LOAD_SUPER_ATTR": "x1",
+            "BINARY_SUBSCR": "x2", "DELETE_SUBSCR": "x2", "STORE_SUBSCR": "x2", "BINARY_SLICE": "x3", "STORE_SLICE": "x3"}
+
+
+def _operands(ctx, repo, v) -> None:
+    gens = I.Generators(repo, v)
+    table, dnode = _methods_table(repo, v)
+    seen = set()
+    for names, fn, key in table:
+        for site in I.sites_in(fn):
+            if site.method != "track_attribute_access":
+                continue
+            for op in site.opcodes or [None]:
+                if op is None or op not in names or op not in RECEIVER or (id(site.call), op) in seen:
+                    continue
+                seen.add((id(site.call), op))
+                reads, pushes = I.OPERANDS[op]
+                for var in site.variants(op):
+                    tag = f"[{v} {fn.name} {op}]"
+                    try:
+                        seq = gens.sequence(site.action, list(var), site.overriding)
+                        _st, calls, _c = I.run_stack(seq, [f"x{i}" for i in range(reads, 0, -1)], I.OPERANDS[op] if site.overriding else None)
+                    except (peval.Undecided, peval.Raises, I.StackError) as exc:
+                        ctx.undecide("C09.operands", site.call, f"{tag}: {exc}")
+                        continue
+                    got = calls[0][1][-1] if calls else None
+                    ctx.check("C09.operands", site.call, got == RECEIVER[op], f"{tag}: track_attribute_access receives {got}, the object {op} works on is {RECEIVER[op]} (x1 = top of the stack before the instruction): the access is recorded for another object, so it is never matched with the uses / definitions of the real one", what=f"{tag}: traced object = {RECEIVER[op]}", stmt=tag)
 
 
 def _predicates(ctx, repo) -> None:
